@@ -8,6 +8,7 @@ from harness.lib.core import VERIF, Ctx, lean_lock, run_driver, shrink_ops
 from harness.extract import filter as x_filter
 from harness.extract import forward as x_forward
 from harness.extract import forward_arp as x_forward_arp
+from harness.extract import forward_route as x_forward_route
 from harness.rigs import net08 as rnet
 from harness.rigs import route as rroute
 
@@ -47,7 +48,16 @@ MANIFEST = {
             "resolve_outbound_network_interface become programs over the stateful ARP look-ups (order kept) and the model's "
             "resolveDetails / resolveOut are proved to compute exactly what these programs compute for every route table, ARP cache, "
             "destination and fuel (C08_gen_session_resolve_*); a concrete router shows an ARP-first resolution choosing another next "
-            "hop (C08_session_resolve_countermodel). Float metrics: on "
+            "hop (C08_session_resolve_countermodel). THE ROUTER'S FORWARDING STEP is translated: Router.process_frame and route_frame "
+            "become programs (Gen/ForwardRoute.lean: broadcast guard, own-address loop, the two ARP look-ups in source order, "
+            "MAC / interface / enabled / on-link tests, TTL decrement, its test, the two header writes, send, find_best_route + the "
+            "next-hop look-ups) and the model's routerProcess is proved to compute exactly what they compute for every state, "
+            "route table, ARP cache, frame and fuel (C08_gen_route_frame_process); from the programs alone: nothing is sent "
+            "without a decrement tested < 1 and both header writes (C08_gen_route_frame_hops). ICMP is translated as well: ICMP.ping "
+            "(incl. the loopback branch, now an early case of the model's ping: nothing sent, answer = some interface enabled), "
+            "_send_icmp_echo_request and the host / router _process_icmp_echo_request become programs and the model's ping, one loop "
+            "step and the echo-request branches of hostRecv / routerRecv are proved to be their interpretation (C08_gen_icmp_*; "
+            "C08_gen_icmp_ping for pings > 0 or a loopback target: the source divides by pings in its statistics line). Float metrics: on "
             "A switch re-points a MAC to the port it was last seen on, whatever its table held (learning is unconditional and precedes "
             "the table read); R-net re-cables hosts at run time. On finite metrics the float loop is the integer loop; for every table the selected entry has no strictly cheaper rival of its "
             "prefix, and for every nan-free (= constructible: RouteEntry refuses NaN) table it is the minimum in -inf <= finite <= inf. Tie: constants, comparison "
@@ -65,7 +75,9 @@ MANIFEST = {
             "is composed in the driver from proved steps, not part of the proved model. "
             "Metrics are Int in the model (float inf/nan not modelled). Rule lists are abstracted to one verdict per payload "
             "class (router: default ACL plus one permit flag; firewall: six lists x three classes); an air space frequency is "
-            "modelled for two access points only; link / air space capacity is outside the forwarding model.",
+            "modelled for two access points only (3-5 access points per frequency are only SEARCHED with the property's oracle on the "
+            "implementation, family air_many; the model has one peer per interface); the liveness theorems assume the pinged "
+            "address is not a loopback address; link / air space capacity is outside the forwarding model.",
     "technique": "Lean 4 theorems over executable models of route selection and frame forwarding; models tied by regenerated tables and "
                  "two differential rigs",
     "design_ref": "5/C08",
@@ -74,8 +86,35 @@ MODULES = ["PrimaiteModel.Props.C08", "PrimaiteModel.Props.C08Forward", "Primait
            "PrimaiteModel.Props.C08Addressee", "PrimaiteModel.Props.C08Liveness", "PrimaiteModel.Props.C08FuelMono",
            "PrimaiteModel.Props.C08Termination", "PrimaiteModel.Props.C08RouteOps", "PrimaiteModel.Props.C08Cold",
            "PrimaiteModel.Props.C08ColdRouter", "PrimaiteModel.Props.C08HostHop", "PrimaiteModel.Props.C08Metric",
-           "PrimaiteModel.Props.C08SwitchLearn", "PrimaiteModel.Props.C08ColdApp", "PrimaiteModel.Props.C08ArpGen", "PrimaiteModel.Props.C08SessionGen"]
+           "PrimaiteModel.Props.C08SwitchLearn", "PrimaiteModel.Props.C08ColdApp", "PrimaiteModel.Props.C08ArpGen", "PrimaiteModel.Props.C08SessionGen",
+           "PrimaiteModel.Props.C08RouteGen"]
 EXE = "drv_c08"
+
+# ---- round 7b: ICMP translated (Gen/ForwardIcmp + Props/C08IcmpGen) and the loopback rig family -- ONE block of additions ----------
+from harness.extract import forward_icmp as x_forward_icmp  # noqa: E402
+
+MODULES = MODULES + ["PrimaiteModel.Props.C08IcmpGen"]
+
+
+def _extract_icmp(ctx: Ctx):
+    """ICMP.ping / _send_icmp_echo_request / _process_icmp_echo_request (+ RouterICMP), translated; tied by C08_gen_icmp_*"""
+    ctx.extract("ForwardIcmp", x_forward_icmp.emit)
+
+
+def _with_loopback(case: dict, rng) -> dict:
+    return rnet.add_loopback_ops(case, rng)
+
+
+def _count_loopback(ctx: Ctx, case: dict, model: List[str]):
+    """loopback pings of one trace: who pinged, what the model answered, that nothing was sent"""
+    for op, a in zip(case["ops"], model):
+        if op["op"] == "ping" and str(op["dst"]).startswith("127."):
+            kind = case["nodes"][op["src"]]["kind"]
+            ctx.count(f"net-ping-loopback:{kind}:{a.split()[0]}")
+            ctx.count("net-ping-loopback-target:" + ("127.0.0.1" if op["dst"] == "127.0.0.1" else "other-127/8"))
+            if len(a.split()) > 1:
+                ctx.count("net-ping-loopback-with-events")
+# ---- end of round 7b block -----------------------------------------------------------------------------------------------------------
 
 
 # ---------------------------------------------------------------------------------------------- R-route
@@ -197,6 +236,25 @@ def _net_sig(case: dict, i: int, impl: List[str], model: List[str]) -> dict:
     return {"kind": "model-vs-impl", "rig": "net", "op": op, "what": what, "routers": case.get("notes", {}).get("routers")}
 
 
+def _run_air_many(ctx: Ctx):
+    """more than two access points on one air space frequency: OUTSIDE the Lean model (one peer per interface); the property's own oracle
+    (a)-(d) on the real objects, as a search for a failing input — never counted as a validated model trace."""
+    rng = ctx.rng.fork("air-many")
+    for k in [3, 4, 3, 5][: ctx.scale(3, 4)] * ctx.scale(1, 6):
+        case = rnet.gen_air_many(rng, k)
+        impl, records = rnet.run_impl(case)
+        ctx.count(f"air-many(impl-only):aps={k}:routing={case['notes']['routing']}")
+        for r in records:
+            if r["op"]["op"] == "ping":
+                ctx.count(f"air-many(impl-only):ping:{r['res']}")
+                ctx.count("air-many(impl-only):bystander-receives", sum(1 for e in r["raw"] if e[0] == "rx") - sum(1 for e in r["raw"] if e[0] in ("hop", "sw")))
+        bad = rnet.oracle(case, records)
+        if bad:
+            kk = bad["op"]
+            small = dict(case, ops=case["ops"][:kk + 1]) if kk < len(case["ops"]) else case
+            ctx.violation({"kind": "net-oracle", "defect": bad["kind"], "family": "air-many"}, bad["what"], {"rig": "air-many", "case": small})
+
+
 def _run_net(ctx: Ctx):
     cases = []
     for f in sorted((VERIF / "corpus" / "C08").glob("net_*.json")):
@@ -204,6 +262,8 @@ def _run_net(ctx: Ctx):
     rng = ctx.rng.fork("net")
     for k in range(ctx.scale(220, 2500)):
         cases.append((f"gen:{k}", rnet.gen_case(rng)))
+    lrng = ctx.rng.fork("net-loopback")  # round 7b: own stream, the generated cases themselves stay what they were
+    cases = [(nm, _with_loopback(c, lrng) if nm.startswith("gen:") else c) for nm, c in cases]
     impl_all, rec_all, lines_all, pos_all = [], [], [], []
     for name, case in cases:
         impl, records = rnet.run_impl(case)
@@ -247,6 +307,7 @@ def _run_net(ctx: Ctx):
         ctx.count(f"net-routers:{notes.get('routers')}")
         ctx.count(f"net-routing:{notes.get('routing')}")
         nontrivial = False
+        _count_loopback(ctx, case, model)  # round 7b
         for op, a in zip(case["ops"], model):
             ctx.count("net-op:" + op["op"])
             if op["op"] == "service":
@@ -266,6 +327,18 @@ def _run_net(ctx: Ctx):
                         if any(t.startswith(f"hop:{sp}:") for t in toks):
                             ctx.count(f"net-ping-through-{case['nodes'][sp]['kind']}:{a.split()[0]}")
                 ctx.count("net-events", len(toks))
+            if op["op"] == "inject":  # family inject_low_ttl: did the router's process_frame / route_frame send, drop at the TTL test, or drop before
+                toks = a.split()[1:]
+                hops = [j for j, t in enumerate(toks) if t.startswith("hop:")]
+                fate = "no-hop" if not hops else ("sent" if any(t.startswith("rx:") for t in toks[hops[0] + 1:]) else "hop-then-nothing")
+                if case["nodes"][op["node"]]["kind"] == "host":
+                    own = [case["nodes"][op["node"]]["ip"]] + [x["ip"] for x in case["nodes"][op["node"]].get("extra", [])]
+                    cls = "arrival-nic" if op["dst"] == own[op["ifc"]] else ("other-nic" if op["dst"] in own else "foreign")
+                    fate = "software" if any(t.startswith("sw:") for t in toks) else "not-handed-up"
+                    ctx.count(f"net-inject-host:{cls}:ttl{op['ttl']}:{fate}:answered={int(len([t for t in toks if t.startswith('rx:')]) > 1)}")
+                    continue
+                ctx.count(f"net-inject:ttl{op['ttl']}:{fate}")
+                nontrivial = nontrivial or bool(hops)
             if "OOF" in a.split():
                 ctx.count("net-model-out-of-fuel")
         ctx.case(["net", case], nontrivial)
@@ -395,6 +468,9 @@ def replay(rec: dict) -> bool:
         impl = rroute.run_impl_float(case)
         model = run_driver(EXE, rroute.float_model_lines(case))
         return impl == model and rroute.float_oracle(case, impl) is None
+    if r.get("rig") == "air-many":
+        _, records = rnet.run_impl(case)
+        return rnet.oracle(case, records) is None
     if r.get("rig") == "app":
         ok, impl, model, i, records = _app_diff(case)
         return ok and rnet.oracle(dict(case, consistent=case["app"]["mode"] == "all"), records) is None
@@ -406,6 +482,8 @@ def run(ctx: Ctx):
     with lean_lock():
         ctx.extract("Forward", x_forward.emit)
         ctx.extract("ForwardArp", x_forward_arp.emit)  # ARP look-ups / add entry / send request / handlers, translated
+        ctx.extract("ForwardRoute", x_forward_route.emit)  # Router.process_frame / route_frame, translated into programs
+        _extract_icmp(ctx)  # round 7b
         ctx.extract("Filter", x_filter.emit)  # C06's extractor: firewall entry points (tied by C08_gen_firewall)
         ctx.prove(MODULES, exes=[EXE], clean=False, leanchecker=ctx.thorough)
     ctx.cov["rule"] = ("route cases = (surface in {RouteTable api, Router.from_config}, table, default, interleaved queries), non-trivial "
@@ -415,4 +493,5 @@ def run(ctx: Ctx):
                        "canonical JSON of the case")
     _run_route(ctx)
     _run_net(ctx)
+    _run_air_many(ctx)
     _run_apps(ctx)
